@@ -4,9 +4,9 @@
    connected_components(), segment_connected_component() and the n_* counters of the implementation after generated
    histories.  The counter identities are proved from the invariant of the graph (C02/C09): each dovetail, containment
    and internal record is filed exactly twice among the collections of its class, so the halved sums are the numbers
-   of records.  n_dead_ends is compared, not characterised. *)
+   of records.  n_dead_ends is the number of segment ends on which no line of the document puts a dovetail. *)
 From Coq Require Import List String Ascii ZArith Bool.
-From GfaV Require Import Base.Py Model.Codec Model.Graph Model.Topology Proofs.GraphP Proofs.TopologyP Proofs.CountersP.
+From GfaV Require Import Base.Py Model.Codec Model.Graph Model.Topology Proofs.GraphP Proofs.TopologyP Proofs.CountersP Proofs.DeadEndsP.
 Import ListNotations.
 Open Scope string_scope.
 
@@ -55,6 +55,20 @@ Qed.
 Print Assumptions C16_counters_in_reachable_states.
 
 (* containments and internal alignments do not connect *)
+(* dead ends, counted from the document: an end is dead exactly when no line mentions it as the end of a dovetail, and
+   n_dead_ends is the number of such ends over the segments of the Gfa *)
+Theorem C16_dead_ends_counted_from_the_document : forall s,
+  n_dead_ends s =
+  sum_nat (map (fun n => (if end_is_dead s n "L" then 1 else 0) + (if end_is_dead s n "R" then 1 else 0)) (segment_names s)).
+Proof. exact dead_ends_counted_from_the_document. Qed.
+Print Assumptions C16_dead_ends_counted_from_the_document.
+
+Theorem C16_dead_end_spec : forall s n e,
+  end_is_dead s n e = true <->
+  forall l m, In l (lines s) -> In m (mentions l) -> m_target m = n -> m_coll m <> ("dovetails_" ++ e)%string.
+Proof. exact end_is_dead_spec. Qed.
+Print Assumptions C16_dead_end_spec.
+
 Example C16_witness :
   let t := String tab EmptyString in
   let s := Proofs.GraphP.run_texts "gfa1"
